@@ -127,7 +127,7 @@ def domain(d, dim, dense, V):
             a, b, c = V['Minv[0,0]'], V['Minv[0,1]'], V['Minv[1,1]']
             cs += [d.lt(0, a), d.lt(0, d.sub(d.mul(a, c), d.mul(b, b)))]
     else:
-        cs += [d.lt(0, V[f'Minv[{j}]']) for j in range(dim)]
+        cs += [d.lt(0, V[f'Minv[{j}]']) for j in range(dim) if f'Minv[{j}]' in V]
     return cs
 
 
